@@ -13,7 +13,7 @@
        fold of its own insert's writes (c01_commit_read from the cell value None), and by C03 it
        is in no index unless its own value satisfies the rule. *)
 From stdpp Require Import gmap.
-From ColumnV Require Import Bytes Store StoreProofs StoreProofs2 Alloc.
+From ColumnV Require Import Bytes Store StoreProofs StoreProofs2 StoreProofs6 Alloc.
 
 Theorem c11_inserts_distinct : ∀ s body,
   Quiescent s → Forall fresh_res (snd (do_stmts s txn0 body)) →
@@ -52,3 +52,10 @@ Print Assumptions c11_find_free_fresh.
 
 Example c11_alloc_example : find_free [N.ones 64; 5%N] 67 = 65%N ∧ find_free [N.ones 64] 65 = 64%N ∧ find_free [] 1 = 0%N.
 Proof. vm_compute. done. Qed.
+
+(* the invariants together, in EVERY state reachable from the empty collection by any history of
+   schema changes and transactions (committed or rolled back) whose transactions meet the decidable
+   side conditions [txn_wf] - which Check.v evaluates on every recorded history (tag WF) *)
+Theorem c11_reachable_invariants : ∀ h, history_ok coll0 h → Inv (foldl hrun coll0 h).
+Proof. exact reachable_inv. Qed.
+Print Assumptions c11_reachable_invariants.
